@@ -301,6 +301,14 @@ trait IntoCInt {
     fn into_c_int(self) -> c_int;
 }
 
+/// Verification hook, only compiled with `--cfg iceoryx2_verif`: pushes a value through the
+/// crate-private error conversion.
+#[cfg(iceoryx2_verif)]
+#[allow(private_bounds)]
+pub fn verif_into_c_int<T: IntoCInt>(value: T) -> c_int {
+    value.into_c_int()
+}
+
 trait HandleToType {
     type Target;
 
